@@ -49,6 +49,34 @@ Theorem C22_remote_to_local_loop : forall dst sname dname t',
   r2l dst sname dname t' = extract (members (place dst sname dname) t') (world dname dst).
 Proof. exact r2l_eq_dom. Qed.
 
+(* The same loop with Python's errors ([r2l_chk]: NotADirectoryError / IsADirectoryError / FileExistsError stop it): if it does
+   not raise, the file system is the one of the error-free model; if it raises, it raised at the first member that cannot be
+   written and the file system is exactly what the members before it wrote -- for every archive and EVERY destination state,
+   kind conflicts included.  (What remains outside the model is GNU tar on the remote side, which carries on after a member it
+   cannot write, and cp/ln refusals: C22_conflict_outside_model.) *)
+Theorem C22_extract_loop_clean : forall dst sname dname t' fs,
+  r2l_chk dst sname dname t' = (fs, false) -> fs = r2l dst sname dname t'.
+Proof. exact r2l_chk_clean. Qed.
+
+Theorem C22_extract_loop_partial : forall dst sname dname t' fs,
+  r2l_chk dst sname dname t' = (fs, true) ->
+  exists k mb,
+    nth_error (members [sname] t') k = Some mb /\
+    fs = fst (fold_left (py_step sname) (firstn k (members [sname] t')) (world dname dst, [dname])) /\
+    py_bad sname (fold_left (py_step sname) (firstn k (members [sname] t')) (world dname dst, [dname])) mb = true.
+Proof. exact r2l_chk_partial. Qed.
+
+Example C22_extract_loop_ex :
+  r2l_chk (Some (Dir [("s", File "old" false)])) "s" "d" (Dir [("a", File "x" false)])
+    = (Dir [("d", Dir [("s", File "old" false)])], true) /\
+  r2l_chk (Some (File "old" false)) "s" "d" (Dir [("a", File "x" false)]) = (Dir [("d", File "old" false)], true) /\
+  r2l_chk (Some (Dir [("s", Dir [("in", File "old" false)])])) "s" "d" (File "x" true)
+    = (Dir [("d", Dir [("s", Dir [("in", File "old" false)])])], true) /\
+  r2l_chk (Some (Dir [("s", Dir [("b", Dir [])])])) "s" "d" (Dir [("a", File "x" false); ("b", File "y" false); ("c", File "z" false)])
+    = (Dir [("d", Dir [("s", Dir [("b", Dir []); ("a", File "x" false)])])], true) /\
+  r2l_chk (Some (Dir [])) "s" "d" (Dir [("a", File "x" false)]) = (Dir [("d", Dir [("s", Dir [("a", File "x" false)])])], false).
+Proof. exact r2l_chk_witnesses. Qed.
+
 (* Dereferencing keeps trees well formed (same names, directory by directory). *)
 Theorem C22_deref_wf : forall root, wf root -> forall fuel self t t', wf t -> deref fuel root self t = Some t' -> wf t'.
 Proof. exact wf_deref. Qed.
@@ -99,6 +127,30 @@ Example C22_transfer_tee_ex :
   cell_ok RRother false None "s" "other" (File "x" false) = true /\
   transfer FUEL RRother false None "s" "other" (File "x" false) = Some (Dir [("other", File "x" false)]).
 Proof. vm_compute. split; reflexivity. Qed.
+
+(* Re-transfer over an earlier copy -- what every recovery retry does.  On the tar routes (local->remote, remote->local,
+   remote->other location), for every source tree t with unique names and EVERY earlier tree t0 found under the source's name in
+   the destination directory that has the shape of the dereferenced source ([same_shape]: same names in the same order, directory
+   for directory, non-directory for non-directory -- no kind conflict; contents, exec bits, link texts arbitrary, i.e. any
+   out-of-date copy): afterwards the entry is exactly deref t and every other entry of the directory is untouched.  (With other
+   names in t0 the result is the merge of C22_extract_members; the non-tar routes do NOT have this property: known/C22.txt.) *)
+Theorem C22_retransfer_tar : forall fuel r w es sname dname t t' t0 fs',
+  tar_route r = true -> wf t ->
+  deref fuel t [] t = Some t' ->
+  lookup1 sname es = Some t0 -> same_shape t' t0 ->
+  transfer fuel r w (Some (Dir es)) sname dname t = Some fs' ->
+  lookup fs' [dname; sname] = Some t' /\
+  (forall m, m <> sname -> lookup fs' [dname; m] = lookup1 m es).
+Proof. exact retransfer_tar. Qed.
+
+Example C22_retransfer_ex :
+  let t := Dir [("a", File "new" true); ("l", Link "a"); ("sub", Dir [("k", File "k2" false)])] in
+  let t0 := Dir [("a", File "old" false); ("l", File "old" false); ("sub", Dir [("k", File "old" true)])] in
+  let t' := Dir [("a", File "new" true); ("l", File "new" true); ("sub", Dir [("k", File "k2" false)])] in
+  deref FUEL t [] t = Some t' /\ same_shape t' t0 /\
+  transfer FUEL RL false (Some (Dir [("zz", File "keep" false); ("s", t0)])) "s" "d" t
+  = Some (Dir [("d", Dir [("zz", File "keep" false); ("s", t')])]).
+Proof. vm_compute. repeat split. Qed.
 
 (* What was in an existing destination directory under another name is still there afterwards. *)
 Theorem C22_frame : forall fuel r w es sname dname t fs' m,
@@ -200,3 +252,6 @@ Print Assumptions C22_commands_verbatim_partial.
 Print Assumptions C22_unquoted_root_refuted.
 Print Assumptions C22_registered.
 Print Assumptions C22_path_strings_partial.
+Print Assumptions C22_retransfer_tar.
+Print Assumptions C22_extract_loop_clean.
+Print Assumptions C22_extract_loop_partial.
